@@ -448,6 +448,14 @@ func (w *World) StructSort(name string, fields []structField) Sort {
 func (w *World) IsStruct(s Sort) bool { _, ok := w.structs[s]; return ok }
 
 func (w *World) StructGet(v Term, field string) Term {
+	// projection of a constructor application reduces syntactically
+	if args, ok := splitApp(v.S, "mk_"+string(v.Sort)); ok && len(args) == len(w.structs[v.Sort]) {
+		for i, f := range w.structs[v.Sort] {
+			if f.Name == field {
+				return Term{args[i], f.Sort}
+			}
+		}
+	}
 	for _, f := range w.structs[v.Sort] {
 		if f.Name == field {
 			return App(f.Sort, fmt.Sprintf("%s_%s", v.Sort, field), v)
@@ -655,4 +663,33 @@ func (w *World) topoOrder(need map[*Def]bool) []*Def {
 		visit(d, map[*Def]bool{})
 	}
 	return out
+}
+
+// splitApp splits "(head a1 a2 ...)" into its top-level arguments if the head matches.
+func splitApp(s, head string) ([]string, bool) {
+	if !strings.HasPrefix(s, "("+head+" ") || !strings.HasSuffix(s, ")") {
+		return nil, false
+	}
+	body := s[len(head)+2 : len(s)-1]
+	var args []string
+	depth, start := 0, 0
+	for i := 0; i < len(body); i++ {
+		switch body[i] {
+		case '(':
+			depth++
+		case ')':
+			depth--
+		case ' ':
+			if depth == 0 {
+				if i > start {
+					args = append(args, body[start:i])
+				}
+				start = i + 1
+			}
+		}
+	}
+	if start < len(body) {
+		args = append(args, body[start:])
+	}
+	return args, depth == 0
 }
